@@ -55,6 +55,28 @@ def gen_tree(rng, depth=0):
     return t
 
 
+def same_size_variant(tree):
+    """A copy of the tree with one leaf changed to a value whose serialised form has the same length, or None."""
+    t = copy.deepcopy(tree)
+
+    def walk(node):
+        items = node.items() if isinstance(node, dict) else enumerate(node)
+        for k, v in list(items):
+            if isinstance(v, bool):
+                continue
+            if isinstance(v, int) and 0 <= v <= 9:
+                node[k] = (v + 1) % 10 if v != 9 else 8
+                return True
+            if isinstance(v, str) and v and v[-1].isalpha() and v[-1].isascii():
+                node[k] = v[:-1] + ("b" if v[-1] != "b" else "c")
+                return True
+            if isinstance(v, (dict, list)) and walk(v):
+                return True
+        return False
+
+    return t if walk(t) else None
+
+
 def canon_unordered(t):
     """Type-exact canonical form that ignores the order of map keys."""
     if isinstance(t, dict):
@@ -197,6 +219,16 @@ class IncludeScenario(Scenario):
             return {"op": "chdir", "to": rng.choice(["/work", "/data", "/inc", "/work/rel"])}
         if r < 0.33 and getattr(st, "loads", 0):
             return self.gen_grow(st, rng)
+        last = getattr(st, "last_load", None)
+        if last is not None and last["files"] and r < 0.45:
+            # the same documents again, one included file rewritten in place with content of the same size
+            files = copy.deepcopy(last["files"])
+            for victim in rng.sample(sorted(files), len(files)):
+                alt = same_size_variant(files[victim])
+                if alt is not None:
+                    files[victim] = alt
+                    return {"op": "load", "fmt": last["fmt"], "main": copy.deepcopy(last["main"]), "files": files, "opts": dict(last["opts"]),
+                            "rewrite": victim}
         fmt = rng.choice(ops.FORMATS)
         files = {}
 
@@ -291,7 +323,10 @@ class IncludeScenario(Scenario):
             self.do_grow(st, op, rec)
         else:
             st.loads = getattr(st, "loads", 0) + 1
+            if op.get("rewrite"):
+                rec.probe("include-rewritten-same-size")
             self.do_load(st, op, rec)
+            st.last_load = {"fmt": op["fmt"], "main": op["main"], "files": op["files"], "opts": op.get("opts", {})}
 
     def do_combine(self, st, op, rec):
         fld = cc.IncludeField()
@@ -382,15 +417,6 @@ class IncludeScenario(Scenario):
             elif how == "open-err":
                 st.open_err_path = p
                 w.armed.append({"seam": "open:r", "nth": 1, "path": p, "errno": "EIO", "kind": "open-err"})
-        # reference
-        trace = []
-        try:
-            want = self.ref_process(st, st.root, copy.deepcopy(main), fmt, trace)
-            ref_err = None
-        except SeamGap:
-            raise
-        except Exception as exc:  # noqa: BLE001  (reference could not resolve/parse an include)
-            want, ref_err = None, exc
         # C18 judges each load on a fresh configuration; C06 keeps one configuration alive so that failing
         # loads hit arbitrary reachable states
         cfg = st.schema() if self.prop == "C18" else st.cfg
@@ -402,6 +428,22 @@ class IncludeScenario(Scenario):
             _, err = self._call(lambda: cfg.loads(w.peek("/data/main.cfg"), fmt, **opts))
         else:
             _, err = self._call(lambda: cfg.load("/data/main.cfg", fmt))
+        if faulted and fault["how"] in ("open-err", "unreadable") and not any(e[2] == "open" and e[3] == fault["path"] for e in w.step_journal()):
+            # a fault that only shows when the file is opened, and the library did not open it during this load (it is
+            # not named by what was merged, or its unchanged content was already known): nothing to observe, no claim
+            st.open_err_path = None
+            w.unreadable.discard(fault["path"])
+            faulted = False
+            rec.probe("include-fault-not-observed:" + fault["how"])
+        # reference
+        trace = []
+        try:
+            want = self.ref_process(st, st.root, copy.deepcopy(main), fmt, trace)
+            ref_err = None
+        except SeamGap:
+            raise
+        except Exception as exc:  # noqa: BLE001  (reference could not resolve/parse an include)
+            want, ref_err = None, exc
         if self.prop == "C06":
             rec.log("load", fmt, fault and fault["how"], type(err).__name__ if err else "ok")
             rec.kind(fmt + (":" + fault["how"] if faulted else ""))
